@@ -440,7 +440,7 @@ class Recorder:
 
         def col(a):     # first column of a log table, whatever its rank (the recorder must not fail where the optimiser did not)
             a = np.asarray(a)
-            return a.reshape(a.shape[0], -1)[:n, 0].tolist()
+            return a.reshape(a.shape[0], -1)[:n, 0].tolist() if a.size else []
         tr["log_shapes"] = {k: list(np.shape(getattr(fl, k))) for k in ("X", "X_orig", "Y", "Y_orig", "S", "n_evals") if getattr(fl, k, None) is not None}
         tr["final"] = dict(snap=self.snap(b), ncalls=self.ncall, level=int(b.optim_state["uncertainty_handling_level"]),
                            logX=fl.X[:n].tolist(), logXo=fl.X_orig[:n].tolist(), logY=col(fl.Y),
